@@ -139,6 +139,8 @@ def confirm_timing(m, prop, scen, tries=2):
     s2 = copy.deepcopy(clean(scen))
     s2["timeout"] = 3 * scen.get("timeout", 10)
     s2["settle"] = 3 * scen.get("settle", 6)
+    if scen.get("await_timeout"):
+        s2["await_timeout"] = 3 * scen["await_timeout"]
     for _ in range(tries):
         out = eb.run_many([s2], jobs=1)[0]
         try:
